@@ -229,7 +229,7 @@ def run(ck):
                "action/response by independent component oracles (action penalty, sticky/non-sticky green penalties, file integrity, shared); "
                "non-trivial = at least one sharing edge")
     coq_props(ck)
-    gen_tie.check(ck, ["reward"])
+    gen_tie.check(ck, ["reward", "rewardsum"])
     rng = ck.rng
     coq_in = []
     for n in ((2, 3) if ck.quick else (2, 3, 4)):
